@@ -14,8 +14,18 @@ later phases.  Iterating removes every invocation (`flattenAll` is that iteratio
 Definitions may follow uses because the macro table is filled before flattening
 (`Spec.assembleScope` calls `declareMacros` first).
 `C10_substitution_*`: what instantiation does to expressions.
+`C10_text`: the parser side, for the WHOLE surface language (`Asm/FullText.lean`):
+every structured program text — instruction-macro definitions `%macro name(params)
+… %end` with bodies of instructions, pushes, `%push`, labels and nested invocations,
+invocations `%name(args)`, expression-macro definitions and calls, `$variables`,
+`selector`/`topic`, directives with escaped paths, any legal layout — goes through
+the full pest interpreter over the regenerated grammar and the walk of `parse_asm`
+to exactly one node per statement: the definition node carries the declared name,
+the parameter list and the body's abstract ops; the invocation node the name and
+the argument expressions.
 -/
 import EtkVerif.Asm.Corollaries
+import EtkVerif.Asm.FullTextPest
 namespace EtkVerif.C10
 open Asm
 
@@ -61,5 +71,11 @@ theorem C10_substitution_nested (renames : List (String × String)) (bs : List (
 theorem C10_rename_label (old new l : String) :
     replaceLabel old new (.label l) = if l = old then .label new else .label l := by
   simp [replaceLabel]
+
+open Asm.Layout Asm.FullText in
+/-- text → nodes for the whole surface language (macros, calls, directives included), any layout -/
+theorem C10_text (head : List BlankLine) (items : List FullText.Item) (h : FullText.WF head items) :
+    parseAsm (FullText.render head items) = .ok (items.map (fun x => x.stmt.node)) :=
+  parse_full head items h
 
 end EtkVerif.C10
